@@ -62,7 +62,7 @@ IsVetoTriple == Ev.code = 777 /\ Ev.msg = "veto-msg" /\ Ev.cause = "veto-cause"
 \* error a plugin panic becomes): OK still needs a handler that returned OK and a decoded reply
 StatusRule ==
   \* a handler that outlived the context age of its session: its reply could not be written, the caller is told so (500)
-  IF cfg.res = "ageshort" /\ hexit # "none" THEN Ev.code = 500 /\ Ev.msg = "Internal Server Error"
+  IF (cfg.res = "ageshort" /\ hexit # "none") \/ (cfg.res = "smalllimit" /\ hexit = "ok") THEN Ev.code = 500 /\ Ev.msg = "Internal Server Error"
   ELSE IF ppanic # "none" THEN (Ev.code = 0 => hexit = "ok" /\ cfg.rdec = "ok" /\ Ev.resok)
   ELSE IF Ev.code = 0
     THEN hexit = "ok" /\ cfg.hout # "unpackable" /\ cfg.rdec = "ok" /\ ~CliReadVeto /\ Ev.resok
